@@ -5,12 +5,13 @@ package utils
 
 import (
 	"fmt"
-	"math"
+	"math/bits"
 	"net"
 	"net/url"
 	"os"
 	"path"
 	"strconv"
+	"strings"
 	"time"
 
 	"github.com/ava-labs/avalanchego/ids"
@@ -65,16 +66,51 @@ func GetPort(uri string) (string, error) {
 	return purl.Port(), err
 }
 
+// unitsPerToken is 10^consts.Decimals
+var unitsPerToken = func() uint64 {
+	v := uint64(1)
+	for i := 0; i < int(consts.Decimals); i++ {
+		v *= 10
+	}
+	return v
+}()
+
 func FormatBalance(bal uint64) string {
-	return strconv.FormatFloat(float64(bal)/math.Pow10(int(consts.Decimals)), 'f', int(consts.Decimals), 64)
+	frac := strconv.FormatUint(bal%unitsPerToken, 10)
+	return strconv.FormatUint(bal/unitsPerToken, 10) + "." + strings.Repeat("0", int(consts.Decimals)-len(frac)) + frac
 }
 
 func ParseBalance(bal string) (uint64, error) {
-	f, err := strconv.ParseFloat(bal, 64)
-	if err != nil {
-		return 0, err
+	whole, frac, _ := strings.Cut(bal, ".")
+	if len(frac) > int(consts.Decimals) {
+		return 0, fmt.Errorf("%w: too many decimals in %q", strconv.ErrSyntax, bal)
 	}
-	return uint64(f * math.Pow10(int(consts.Decimals))), nil
+	if whole == "" && frac == "" {
+		return 0, fmt.Errorf("%w: %q", strconv.ErrSyntax, bal)
+	}
+	var (
+		w, f uint64
+		err  error
+	)
+	if whole != "" {
+		if w, err = strconv.ParseUint(whole, 10, 64); err != nil {
+			return 0, err
+		}
+	}
+	if frac != "" {
+		if f, err = strconv.ParseUint(frac, 10, 64); err != nil {
+			return 0, err
+		}
+		for i := len(frac); i < int(consts.Decimals); i++ {
+			f *= 10
+		}
+	}
+	hi, lo := bits.Mul64(w, unitsPerToken)
+	v, carry := bits.Add64(lo, f, 0)
+	if hi != 0 || carry != 0 {
+		return 0, fmt.Errorf("%w: %q", strconv.ErrRange, bal)
+	}
+	return v, nil
 }
 
 func Repeat[T any](v T, n int) []T {
